@@ -305,7 +305,7 @@ def locate(lines, gline):
 
 
 # --------------------------------------------------------------------------- harness runs
-def run_harness(binary, sub, args, timeout=600, allow_fail=False, cpu_limit=None):
+def run_harness(binary, sub, args, timeout=600, allow_fail=False, cpu_limit=None, watch=None, stall=60):
     """cpu_limit (seconds of the harness's own CPU time): a run that never ends is a result (death by SIGXCPU, attributed
     like any other death), not a tool error, and a loaded machine cannot fake it."""
     t0 = time.time()
@@ -316,8 +316,41 @@ def run_harness(binary, sub, args, timeout=600, allow_fail=False, cpu_limit=None
         if cpu_limit:
             resource.setrlimit(resource.RLIMIT_CPU, (cpu_limit, cpu_limit + 5))
 
-    p = subprocess.run([binary, sub] + args, stdout=subprocess.PIPE, stderr=subprocess.STDOUT, text=True, timeout=timeout,
-                       preexec_fn=limits)
+    if watch:
+        # the harness appends to `watch` all the time: a process whose output has not grown for `stall` seconds is stuck
+        # (deadlocked in a corrupted heap, say) and is ended: a death like any other
+        import tempfile
+        with tempfile.TemporaryFile(mode="w+") as so:
+            pr = subprocess.Popen([binary, sub] + args, stdout=so, stderr=subprocess.STDOUT, text=True, preexec_fn=limits)
+            last, since = -1, time.time()
+            while pr.poll() is None:
+                time.sleep(0.5)
+                try:
+                    sz = os.path.getsize(watch)
+                except OSError:
+                    sz = -1
+                if sz != last:
+                    last, since = sz, time.time()
+                elif time.time() - since > stall or time.time() - t0 > timeout:
+                    pr.kill()
+                    pr.wait()
+                    so.seek(0)
+                    return -998, so.read(), time.time() - t0
+            so.seek(0)
+            out = so.read()
+        if pr.returncode != 0 and not allow_fail:
+            sys.stderr.write(out[-3000:])
+            raise ToolError("harness %s failed rc=%s" % (sub, pr.returncode))
+        return pr.returncode, out, time.time() - t0
+    try:
+        p = subprocess.run([binary, sub] + args, stdout=subprocess.PIPE, stderr=subprocess.STDOUT, text=True, timeout=timeout,
+                           preexec_fn=limits)
+    except subprocess.TimeoutExpired as ex:
+        if not allow_fail:
+            raise ToolError("harness %s did not finish within %d s" % (sub, timeout))
+        # a process that neither finishes nor burns CPU (deadlocked, e.g. in a corrupted heap): a death like any other
+        out = ex.stdout.decode() if isinstance(ex.stdout, bytes) else (ex.stdout or "")
+        return -998, out, time.time() - t0
     if p.returncode != 0 and not allow_fail:
         sys.stderr.write(p.stdout[-3000:])
         raise ToolError("harness %s failed rc=%s" % (sub, p.returncode))
